@@ -5,7 +5,7 @@
    private flag.  Any number of hooks, any outcomes. *)
 From Coq Require Import ZArith Bool List.
 From AxV Require Import Bits Outcome Codes Iced State Rt Mem Trace Exec ExecP FrameTac FrameP Machine.
-From AxG Require Import Flags Regs Operand Helpers Dispatch Frame.
+From AxG Require Import Flags Regs Operand Helpers Dispatch Frame I_syscall I_int I_int1 I_int3.
 Local Open Scope Z_scope.
 
 (* the hooks that run for one event are an initial segment of the registered list, each
@@ -121,3 +121,13 @@ Print Assumptions C12_each_hook_at_most_once.
 Print Assumptions C12_bracketing.
 Print Assumptions C12_failing_hook.
 Print Assumptions C12_only_own_hooks.
+
+(* SYSCALL, INT imm8, INT1 and INT3 are decided by hooks: each succeeds exactly when hooks are
+   registered for its own mnemonic and otherwise fails, without touching the machine *)
+Theorem C12_os_instructions : forall c i,
+  (i_code i = C_Syscall -> forall s, instr_syscall c i s = ((if hooked s M_Syscall then Ok tt else Err EOther), s)) /\
+  (i_code i = C_Int_imm8 -> forall s, instr_int_imm8 c i s = ((if hooked s M_Int then Ok tt else Err EOther), s)) /\
+  (i_code i = C_Int1 -> forall s, instr_int1 c i s = ((if hooked s M_Int1 then Ok tt else Err EOther), s)) /\
+  (i_code i = C_Int3 -> forall s, instr_int3 c i s = ((if hooked s M_Int3 then Ok tt else Err EOther), s)).
+Proof. intros c i. split; [apply os_syscall|]. split; [apply os_int|]. split; [apply os_int1|apply os_int3]. Qed.
+Print Assumptions C12_os_instructions.
